@@ -308,15 +308,28 @@ def r5_ordering(ctx, f, rep):
     rep.check(tab.get('SendIndirectProbe', 99) < tab.get('ProbeRandomMember', -1), 'C13-R5', b.nname,
               'SendIndirectProbe sorts before ProbeRandomMember', construct='seq-order')
     pb = f.fn('<runtime::Timer as core::cmp::PartialOrd>::partial_cmp')
+    import re
+    INTCMP = re.compile(r'(PartialOrd|Ord) for u8>::(partial_cmp|cmp)$')
     for p in ctx.paths(f, pb, 'none'):
+        if p.end != 'return':
+            continue
         calls = p.calls()
         seqs = [c for c in calls if c['res'] == 'runtime::Timer::seq']
-        cmpc = [c for c in calls if c['res'].endswith('PartialOrd for u8>::partial_cmp')]
-        good = len(seqs) == 2 and len(cmpc) == 1 and len(calls) == 3 and p.ret == ('call', cmpc[0]['id']) and \
-            {seqs[0]['args'][0], seqs[1]['args'][0]} == {('ref', q.SELF, False), ('ref', ('deref', ('param', 0, 2)), False)} and \
-            cmpc[0]['derefs'] == [('call', [s for s in seqs if s['args'][0] == ('ref', q.SELF, False)][0]['id']),
-                                  ('call', [s for s in seqs if s['args'][0] != ('ref', q.SELF, False)][0]['id'])]
-        rep.check(good, 'C13-R5', pb.nname, 'partial_cmp = self.seq().partial_cmp(&other.seq())', construct='partial_cmp')
+        cmpc = [c for c in calls if INTCMP.search(c['res'])]
+        isself = lambda a: a in (('ref', q.SELF, False), ('param', 0, 1))
+        isother = lambda a: a in (('ref', ('deref', ('param', 0, 2)), False), ('param', 0, 2))
+        good = len(seqs) == 2 and len(cmpc) == 1 and len(calls) == 3
+        if good:
+            ss = [s_ for s_ in seqs if isself(s_['args'][0])]
+            so = [s_ for s_ in seqs if isother(s_['args'][0])]
+            good = len(ss) == 1 and len(so) == 1 and cmpc[0]['derefs'] == [('call', ss[0]['id']), ('call', so[0]['id'])]
+            r = p.ret
+            if cmpc[0]['res'].endswith('partial_cmp'):
+                good = good and r == ('call', cmpc[0]['id'])
+            else:
+                good = good and r[0] == 'agg' and r[3] == 'Some' and r[5][0] == ('call', cmpc[0]['id'])
+        rep.check(good, 'C13-R5', pb.nname, 'partial_cmp compares self.seq() with other.seq(), in this order, and nothing else',
+                  construct='partial_cmp')
     ob = f.fn('<runtime::Timer as core::cmp::Ord>::cmp')
     for p in ctx.paths(f, ob, 'none'):
         names = [c['res'].split('::')[-1] for c in p.calls()]
